@@ -22,7 +22,7 @@ import ast
 from engine.cfg import call_name, cfg_of
 from engine.errors import AnalysisError
 from engine.repo import walk_no_nested
-from engine.util import calls_in, dotted, local_assignments, unparse
+from engine.util import calls_in, dotted, local_assignments, unparse, xsrc
 
 ID = 'C02'
 TR = 'sdc11073.mdib.transactions'
@@ -345,14 +345,14 @@ def run(ctx):  # noqa: C901, PLR0912, PLR0915
                fi=dpt, witness=[g.facts_at(n) for n in incs])
     # rm_descriptors_and_states removes states of both tables
     rm = repo.func('sdc11073.mdib.mdibbase.MdibBase.rm_descriptors_and_states')
-    src = unparse(rm.node)
+    src = xsrc(rm)
     ok = 'self.descriptions.remove_object' in src and 'self.states' in src and 'self.context_states' in src and \
         'remove_objects' in src
     ctx.ob('C02.R4', 'rm_descriptors_and_states', ok,
            'rm_descriptors_and_states removes the descriptor and the states of both state tables', fi=rm)
     # _update_corresponding_state sets DescriptorVersion of the state from the descriptor
     ucs = repo.func(f'{TR}.DescriptorTransaction._update_corresponding_state')
-    src = unparse(ucs.node)
+    src = xsrc(ucs)
     n_dv = src.count('update_descriptor_version()') + src.count('.DescriptorVersion = descriptor_container.DescriptorVersion')
     ctx.ob('C02.R4', '_update_corresponding_state sets DescriptorVersion', n_dv >= 3,
            'every branch of _update_corresponding_state carries the descriptor version into the state', fi=ucs,
